@@ -40,7 +40,7 @@ int main() {
     struct K { int n; uint64_t code; } keys[] = {{4, 80}, {4, 188}, {3, 26}, {4, 236}};
     for (auto k : keys) { double lm;
         std::cout << "block2 wl" << k.n << "c" << k.code << " aggregation+chebyshev ce2_smooth nc2 pre1 post2:";
-        for (double oi : {-1.0, 1.25, 1.0}) std::cout << "  oi=" << (oi < 0 ? std::string("default(1.5)") : std::to_string(oi).substr(0, 4)) << " rho=" << rho(k.n, k.code, oi, 2, 1, 2, "chebyshev", 1, &lm);
+        for (double oi : {-1.0, 2.0, 1.5, 1.25, 1.0}) std::cout << "  oi=" << (oi < 0 ? std::string("default") : std::to_string(oi).substr(0, 4)) << " rho=" << rho(k.n, k.code, oi, 2, 1, 2, "chebyshev", 1, &lm);
         std::cout << "  [lambda_min(A)=" << lm << "]\n    same, damped_jacobi: default rho=" << rho(k.n, k.code, -1, 2, 1, 2, "damped_jacobi", 1, &lm) << "   spai0: " << rho(k.n, k.code, -1, 2, 1, 2, "spai0", 1, &lm)
                   << "   cheb nc1: " << rho(k.n, k.code, -1, 1, 1, 2, "chebyshev", 1, &lm) << "   cheb nc2 direct coarse: " << rho(k.n, k.code, -1, 2, 1, 2, "chebyshev", 0, &lm) << "\n";
     }
